@@ -135,3 +135,32 @@ def names_in(node: ast.AST) -> Set[str]:
 
 def attr_chain_text(node: ast.AST) -> Optional[str]:
     return dotted(node)
+
+
+def converged_from_counter(expr: ast.AST, counter: str, cap: str) -> Optional[bool]:
+    """`converged` must be equivalent to  counter < cap - 1  (the counter is the 0-based index of the last pass).
+    True / False when the expression is a single comparison of affine forms in (counter, cap); None otherwise."""
+    from fractions import Fraction
+    from .. import alg
+    if not (isinstance(expr, ast.Compare) and len(expr.ops) == 1):
+        return None
+    l, r = alg.normalise(expr.left), alg.normalise(expr.comparators[0])
+    d = alg.add(l, r, -1)
+    c_atom, k_atom = ((counter, 1),), ((cap, 1),)
+    if set(d) - {(), c_atom, k_atom}:
+        return None
+    cc, kc, k0 = d.get(c_atom, Fraction(0)), d.get(k_atom, Fraction(0)), d.get((), Fraction(0))
+    op = type(expr.ops[0])
+    # normalise to  counter - cap + k  <op> 0
+    if cc == 1 and kc == -1:
+        pass
+    elif cc == -1 and kc == 1:
+        k0 = -k0
+        op = {ast.Lt: ast.Gt, ast.LtE: ast.GtE, ast.Gt: ast.Lt, ast.GtE: ast.LtE}.get(op, op)
+    else:
+        return None
+    if op is ast.Lt:
+        return k0 == 1
+    if op is ast.LtE:
+        return k0 == 2
+    return False
